@@ -154,6 +154,12 @@ def post_volume(ctx, call):
         return
     P = np.asarray(c, dtype=float)
     k = len(P) - 1
+    if getattr(self, "pdim", k) > k:
+        # fewer distinct vertices than a simplex of this dimension has (a repeated vertex): the simplex is degenerate, its volume is 0
+        got0 = float(np.real(call.result))
+        ctx.judge("volume", abs(got0) <= 1e-9, [P], what=f"Simplex.volume = {got0} for a {self.pdim}-simplex with only {len(P)} distinct vertices (expected 0)", op="Simplex.volume",
+                  feat={"k": int(self.pdim), "dim": P.shape[1], "repeated_vertex": True}, nontrivial=True)
+        return
     E = P[1:] - P[0]
     # exact Gram determinant of the (dyadic rational) float coordinates: the reference has no rounding noise of its own
     Ex = [[F(float(x)) for x in row] for row in E]
@@ -529,6 +535,12 @@ def g_simplices(ctx, rng, i):
         flat = _try(g.Simplex, g.Point(*a_), g.Point(*b_), g.Point(*c_))
         if flat is not None:
             _try(lambda: flat.volume)
+        # a tetrahedron with a repeated vertex
+        d_ = a_ + np.array([0, 0, 2.0]) if len(a_) == 3 else None
+        if d_ is not None and np.linalg.matrix_rank(np.stack([b_ - a_, d_ - a_])) == 2:
+            rep = _try(g.Simplex, g.Point(*a_), g.Point(*b_), g.Point(*d_), g.Point(*gen.pick(rng, [b_, d_, a_])))
+            if rep is not None:
+                _try(lambda: rep.volume)
     # collections of segments
     A = np.stack([gen.finite_point(rng, dim, 7, mode) for _ in range(3)])
     B = np.stack([gen.finite_point(rng, dim, 7, mode) for _ in range(3)])
